@@ -49,6 +49,7 @@ type Heap struct {
 	allowAliasedPad  bool
 	allowMethodKeys  bool
 	allowChainCreate bool
+	allowUnsetCopy   bool
 }
 
 // chainIndependent: `T = (S = v)` is only generated when resolving T before or
@@ -463,6 +464,10 @@ func (h *Heap) readPath(p HPath) (HV, error) {
 			// optional chaining through a missing / null member
 			v = hNull()
 		case 'u':
+			if h.allowUnsetCopy {
+				v = hNull()
+				continue
+			}
 			return HV{}, errUnsupported{"read through an unset variable"}
 		default:
 			_ = i
@@ -682,7 +687,7 @@ func (h *Heap) apply(op *HOp) (string, error) {
 		if err != nil {
 			return "", err
 		}
-		if val.K == 'u' {
+		if val.K == 'u' && !h.allowUnsetCopy {
 			return "", errUnsupported{"copy of an unset variable"}
 		}
 		if err := h.prevalidateWrite(op.T); err != nil {
@@ -760,7 +765,7 @@ func (h *Heap) apply(op *HOp) (string, error) {
 		if err != nil {
 			return "", err
 		}
-		if v.K == 'u' {
+		if v.K == 'u' && !h.allowUnsetCopy {
 			return "", errUnsupported{"read of an unset variable"}
 		}
 		return "[" + v.canon() + "]", nil
@@ -1062,6 +1067,7 @@ type HeapCase struct {
 	AllowAliasedPad  bool `json:"allow_aliased_pad,omitempty"`
 	AllowMethodKeys  bool `json:"allow_method_keys,omitempty"`
 	AllowChainCreate bool `json:"allow_chain_create,omitempty"`
+	AllowUnsetCopy   bool `json:"allow_unset_copy,omitempty"`
 }
 
 func (c *HeapCase) dumpStmt() string {
@@ -1219,7 +1225,7 @@ func (c *HeapCase) newHeap() (*Heap, bool) {
 	if r.Status != RefClean || len(r.Values) != 1 || r.Values[0].V.Kind != 'o' {
 		return nil, false
 	}
-	h := &Heap{Vars: map[string]*HCell{}, allowAliasedPad: c.AllowAliasedPad, allowMethodKeys: c.AllowMethodKeys, allowChainCreate: c.AllowChainCreate}
+	h := &Heap{Vars: map[string]*HCell{}, allowAliasedPad: c.AllowAliasedPad, allowMethodKeys: c.AllowMethodKeys, allowChainCreate: c.AllowChainCreate, allowUnsetCopy: c.AllowUnsetCopy}
 	h.Names = append(append([]string{}, c.Vars...), "fe", "fk", "$")
 	h.cell("$").V = fromJVal(r.Values[0].V)
 	return h, true
@@ -1695,6 +1701,7 @@ func registerC09() {
 			"no fault or interleaving dimension exists for this property; what the harness contributes is seeded history search, per-step model conformance, minimisation and replay",
 			"known finding K1: no length-changing write (past-the-end index) on an array that the reference heap sees through two or more cells",
 			"known finding K3: member names are never names of prototype methods",
+			"known finding K10: an unset variable is never stored into a container (reading through the stored unset value turns it into {} and thereby changes the document)",
 			"known finding K8: in `T = (S = v)` the outer target T never needs a missing intermediate (only its final location may be new)",
 			"statement-silent cases are not generated: fractional indices, numeric index on an object, member of an array, writes through explicit nulls or scalars, reads through unset variables, cycles",
 			"strings contain no quotes or escapes, so the printed rendering parses unambiguously; key order is ignored",
